@@ -298,7 +298,7 @@ impl<T: Ord> Ord for BigL<T> {
 pub const MAX_LIST: usize = 6;
 
 #[cfg(kani)]
-mod arena {
+pub mod arena {
     use super::*;
 
     macro_rules! data_arena {
@@ -347,6 +347,12 @@ mod arena {
     data_arena!(TY_ARENA, TY_NEXT, ty, TyData<VI>, 64);
     data_arena!(CONST_ARENA, CONST_NEXT, konst, ConstData<VI>, 24);
     data_arena!(LT_ARENA, LT_NEXT, lifetime, LifetimeData<VI>, 48);
+    pub fn lt_slot(i: usize) -> Option<&'static LifetimeData<VI>> {
+        unsafe { LT_ARENA[i].as_ref() }
+    }
+    pub fn lt_next() -> usize {
+        unsafe { LT_NEXT }
+    }
     data_arena!(GA_ARENA, GA_NEXT, generic_arg, GenericArgData<VI>, 64);
     data_arena!(GOAL_ARENA, GOAL_NEXT, goal, GoalData<VI>, 40);
     data_arena!(PC_ARENA, PC_NEXT, program_clause, ProgramClauseData<VI>, 12);
@@ -516,6 +522,17 @@ impl Interner for VInterner {
     }
 
     fn intern_goal(self, goal: GoalData<VI>) -> R<GoalData<VI>> {
+        if unsafe { obs::ON } {
+            // observation point (DESIGN.md §2.2a): the goal is still a by-value local whose tags
+            // CBMC constant-propagates; once it sits in the arena a `DomainGoal::Holds` is opaque
+            let o = match &goal {
+                GoalData::DomainGoal(DomainGoal::Holds(WhereClause::LifetimeOutlives(o))) => Some((o.a, o.b)),
+                _ => None,
+            };
+            let r = arena::goal(goal);
+            obs::record(r, o);
+            return R(r);
+        }
         R(arena::goal(goal))
     }
     fn goal_data(self, goal: &R<GoalData<VI>>) -> &GoalData<VI> {
@@ -626,6 +643,36 @@ impl Interner for VInterner {
 pub const I: VInterner = VInterner;
 
 /// See `arena::reset`.
+/// Log of the goals interned while `obs::ON` is set: for each one its arena slot and, when it is
+/// `Holds(LifetimeOutlives { a, b })`, the two lifetimes. Harnesses that must *read* goals built
+/// by chalk use this instead of matching on the interned data (reading `DomainGoal::Holds` back
+/// out of the arena costs minutes per read, B17).
+pub mod obs {
+    use super::*;
+    pub static mut ON: bool = false;
+    pub static mut N: usize = 0;
+    pub static mut LOG: [Option<(&'static GoalData<VI>, Option<(Lifetime<VI>, Lifetime<VI>)>)>; 4] = [None; 4];
+    pub fn start() {
+        unsafe {
+            ON = true;
+            N = 0;
+        }
+    }
+    pub fn record(r: &'static GoalData<VI>, o: Option<(Lifetime<VI>, Lifetime<VI>)>) {
+        unsafe {
+            assert!(N < 4, "observation log full");
+            LOG[N] = Some((r, o));
+            N += 1;
+        }
+    }
+    pub fn len() -> usize {
+        unsafe { N }
+    }
+    pub fn get(i: usize) -> (&'static GoalData<VI>, Option<(Lifetime<VI>, Lifetime<VI>)>) {
+        unsafe { LOG[i].unwrap() }
+    }
+}
+
 pub fn arena_reset() {
     arena::reset()
 }
